@@ -320,6 +320,40 @@ var commitThenProposal = scenario{"commit-step-then-proposal-of-the-current-roun
 	return s.RS().Height == h+1
 }}
 
+// cache-primed validation, body variant: after the victim validated and prevoted block X (round undecided), a block
+// with X's header - hence X's hash - but another body (transactions added/dropped, evidence repeated) is proposed.
+func otherBodyScenario(kind int) scenario {
+	return scenario{fmt.Sprintf("same-header-other-body-%d-after-validation", kind), func(s *Script, h uint64) bool {
+		s.ToHarnessProposerRound()
+		b := s.Block(0)
+		if b == nil || !s.Propose(b, 0, true) {
+			return false
+		}
+		r := s.RS().Round
+		s.Votes(kproto.PrevoteType, r, nilID, s.Others)
+		if s.RS().Step == cstypes.RoundStepPrevoteWait {
+			s.Fire()
+		}
+		s.Votes(kproto.PrecommitType, r, nilID, s.Others)
+		if s.RS().Round == r {
+			s.Fire()
+		}
+		s.ToHarnessProposerRound()
+		x := SameHeaderOtherBody(b, kind)
+		if x == nil {
+			return false
+		}
+		s.Propose(x, 0, true)
+		if s.RS().Step <= cstypes.RoundStepPropose {
+			s.Fire()
+		}
+		// the others vote for it: a victim that accepted it would go all the way
+		rr := s.RS().Round
+		s.Votes(kproto.PrevoteType, rr, x.bid, s.Others)
+		return true
+	}}
+}
+
 func allScenarios() []scenario {
 	out := append([]scenario{}, scenarios...)
 	out = append(out, commitThenProposal)
@@ -328,6 +362,7 @@ func allScenarios() []scenario {
 		out = append(out, invalidBlockScenario(v, false), invalidBlockScenario(v, true))
 	}
 	out = append(out, cachePrimed)
+	out = append(out, otherBodyScenario(0), otherBodyScenario(1))
 	return out
 }
 
